@@ -484,6 +484,7 @@ pub fn run_c07(run: &mut Run, replay: Option<&Path>, corpus: &Path) -> anyhow::R
             _ => None,
         };
         let (op, out, bytes) = if is_req { enc_req(max, &m) } else { enc_resp(max, &m) };
+        let enc_op = op.clone();
         run.count("kind", if is_req { "enc-req" } else { "enc-resp" });
         run.count("body_len", size_bucket(m.body.len()));
         run.count("headers", size_bucket(m.headers.len()));
@@ -531,7 +532,7 @@ pub fn run_c07(run: &mut Run, replay: Option<&Path>, corpus: &Path) -> anyhow::R
             bad = Some("decoder consumed a different number of bytes than were encoded");
         }
         if let Some(b) = bad {
-            run.oracle_fail(json!({"kind": b, "encode_op": run_last_op(run), "decode_op": dop.clone(), "impl": dout.clone()}));
+            run.oracle_fail(json!({"kind": b, "ops": [enc_op, dop.clone()], "impl": dout.clone()}));
         }
         run.op(dop, dout, true);
 
@@ -597,8 +598,4 @@ pub fn run_c07(run: &mut Run, replay: Option<&Path>, corpus: &Path) -> anyhow::R
     let (op, out) = enc_ver();
     run.op(op, out, true);
     Ok(())
-}
-
-fn run_last_op(run: &Run) -> String {
-    format!("(op #{})", run.evaluations)
 }
